@@ -4,7 +4,8 @@ CONSTANTS Widths = {} MaxH = 16 MaxOwn = 1 LimbDom = {0} IdWidths = {} StreamWid
   Transports = {} ConnWidths = {} IdCand = {} IdLimit = 0
   MaxReq = 1000000 MaxPlain = 1000000 MaxStray = 1000000
   BActs = {} BHrets <- CNone SyncMax = 0
+  MaxBReq = 1000000 MaxBPlain = 1000000 CRets <- CNone MaxChain = 0
 INVARIANTS XTypeOK Distinct XRefines AtMostOnce IdsFit HeaderOK TypeOK
-PROPERTIES RightWaiter EndToEnd ReserveTiers Recycle StreamOnce Final
+PROPERTIES RightWaiter EndToEnd ReserveTiers Recycle NothingLost StreamOnce Final
 POSTCONDITION TraceAccepted
 CHECK_DEADLOCK FALSE
